@@ -160,6 +160,54 @@ def race_runs(rep, rnd, count):
     rep.add("requests_with_tree_change_in_flight", n)
 
 
+def deep_paths(rep):
+    """Reachable: files whose path below the root is long although every name is short (nested directories; ASCII and
+    multi-byte names; totals around 255 bytes and well beyond), requested literally and percent-encoded."""
+    import shutil
+    import tempfile
+    top = tempfile.mkdtemp(prefix="vf-c02-deep-")
+    n = 0
+    try:
+        root = os.path.join(top, "root")
+        os.makedirs(root)
+        chains = [["d%d-" % i + "x" * 36 for i in range(8)], ["\u65e5\u672c\u8a9e" * 13 + str(i) for i in range(4)], ["e\u0301t\u00e9 %d" % i for i in range(30)]]
+        # relative paths of exactly 254 / 255 / 256 / 257 bytes with short names
+        for total in (254, 255, 256, 257):
+            segs = []
+            left = total - len("/f.gmi")
+            while left > 0:
+                k = min(50, left - 1) if left > 51 else left - 1
+                if k <= 0:
+                    break
+                segs.append("s" * k)
+                left -= k + 1
+            chains.append(segs)
+        for segs in chains:
+            d = os.path.join(root, *segs)
+            os.makedirs(d, exist_ok=True)
+            rel = "/" + "/".join(segs) + "/f.gmi"
+            content = "DEEP-FILE-%d\n" % len(rel.encode("utf-8"))
+            with open(os.path.join(d, "f.gmi"), "w") as f:
+                f.write(content)
+            for listing in (False, True):
+                handler = StaticFileHandler(root, enable_directory_listing=listing)
+                for spelled in (rel, urllib.parse.quote(rel, safe="/")):
+                    try:
+                        resp = handler.handle(make_request(spelled))
+                        st, body = resp.status, resp.body
+                    except Exception as e:  # noqa: BLE001
+                        st, body = 40, str(e)
+                    n += 1
+                    text = body if isinstance(body, str) else (body or b"").decode("utf-8", "replace")
+                    if st != 20 or text != content:
+                        rep.violation({"formula": "Reachable", "deep": True},
+                                      "Reachable falsified: file at a relative path of %d bytes (%d names of <= %d bytes) requested as %r...: answered %d %r" % (
+                                          len(rel.encode("utf-8")), len(segs) + 1, max(len(x.encode("utf-8")) for x in segs), spelled[:60], st, text[:40]), None)
+    finally:
+        shutil.rmtree(top, ignore_errors=True)
+    rep.add("deep_path_requests", n)
+
+
 def agrees(obs, m):
     if m["what"] == "error" or m.get("mayfail"):
         if not (20 <= obs["st"] <= 29):
@@ -327,6 +375,7 @@ def main(pid="C02"):
                 else:
                     rep.drifted("handler departs from the model, Safe/Reachable hold: " + desc)
         race_runs(rep, rnd, 400 if thorough else 60)
+        deep_paths(rep)
         rep.set("rule", "TLC-enumerated (tree, path) cases, each materialised on disk and served by the real handler; distinct = "
                 "distinct (slot assignment, listing, token path, trailing); plus random byte-level spellings judged by sentinel search")
         rep.set("exhaustive", True)
